@@ -139,6 +139,29 @@ def run(ctx):
                         u0 = [(float(z.real), float(z.imag), 0.0, 0.0) for z in x0]
                         lo_c = complex(lo)
                         nterms.append(f'({n}%nat, {dmat(fl(An))}, {dyad_lit(1e-12)}, {dyad_lit(1e-10)}, {mi}%nat, {qrow(u0)}, {qrow(fl(qv.reshape(1, n))[0])}, {dq_lit((lo_c.real, lo_c.imag, 0.0, 0.0))}, {len(rs)}%nat)')
+    # ---- every documented option combination of the complex-adjoint variant, on Hermitian and non-Hermitian input: it answers, the
+    # answer has the documented arity, the vector is a unit vector and the eigenvalue is the one of the default call (options select
+    # the format / stopping rule, not the answer); res_tol = None is the documented "no residual stop"
+    import itertools
+    def _lam(l): return complex(l.w, l.x) if isinstance(l, quaternion.quaternion) else complex(l)
+    for hname, Hq in (('hermitian', herm_with_spectrum(rng, [Fraction(3), Fraction(1), Fraction(-1, 2)])), ('hermitian-negative', herm_with_spectrum(rng, [Fraction(-2), Fraction(1), Fraction(1, 2)])),
+                      ('non-hermitian', [[a + (Q(0, 1, 0, 0) if (i, j) == (0, 1) else Q()) for j, a in enumerate(r)] for i, r in enumerate(qx.rand_int(rng, 3, 3, -3, 3))])):
+        An = qx.to_np(Hq); n = 3
+        with contextlib.redirect_stdout(io.StringIO()): qv0, lo0, rs0 = utils.power_iteration_nonhermitian(An, seed=0)
+        base = {}
+        for rt, rvec, fmt, bp in itertools.product((1e-10, None, 1e-6), (True, False), ('complex', 'quaternion'), (True, False)):
+            inp = {'class': hname, 'res_tol': rt, 'return_vector': rvec, 'eigenvalue_format': fmt, 'block_purify': bp, 'seed': 0, 'A': [[[str(c) for c in a.t()] for a in row] for row in Hq]}
+            try:
+                with contextlib.redirect_stdout(io.StringIO()): out = utils.power_iteration_nonhermitian(An, res_tol=rt, seed=0, return_vector=rvec, eigenvalue_format=fmt, block_purify=bp)
+            except Exception as ex: viol(f'C19:nonhermitian:options:raises:{hname}', f'power_iteration_nonhermitian raised {ex!r} for documented option values (res_tol={rt}, return_vector={rvec}, eigenvalue_format={fmt!r}, block_purify={bp})', inp); continue
+            if len(out) != (3 if rvec else 2): viol(f'C19:nonhermitian:options:arity:{hname}', 'number of returned values does not follow return_vector', inp, len(out)); continue
+            lo = out[1] if rvec else out[0]
+            if isinstance(lo, quaternion.quaternion) != (fmt == 'quaternion'): viol(f'C19:nonhermitian:options:format:{hname}', 'eigenvalue type does not follow eigenvalue_format', inp, type(lo).__name__)
+            if rvec and abs(fro(np.asarray(out[0]).reshape(n, 1)) - 1) > 1e-12: viol(f'C19:nonhermitian:options:unit:{hname}', 'vector is not a unit vector', inp)
+            base[(rt, bp)] = base.get((rt, bp), _lam(lo))                     # first = (return_vector True, complex format) for this stopping rule
+            if abs(_lam(lo) - base[(rt, bp)]) > 1e-12 * max(1.0, abs(base[(rt, bp)])): viol(f'C19:nonhermitian:options:eigenvalue:{hname}', 'the eigenvalue depends on return_vector / eigenvalue_format', inp, _lam(lo), base[(rt, bp)])
+            if hname.startswith('hermitian') and abs(_lam(lo) - complex(lo0)) > 1e-6 * max(1.0, abs(complex(lo0))): viol(f'C19:nonhermitian:options:eigenvalue:{hname}', 'Hermitian input: the eigenvalue differs from the one of the default call', inp, _lam(lo), complex(lo0))
+            ctx.count(('nh-options', hname, str(rt), rvec, fmt, bp), True)
     _A = qx.to_np(herm_with_spectrum(rng, [Fraction(2), Fraction(1), Fraction(-1, 2)]))
     cm.layout_sweep(ctx, qx, 'C19', 'power_iteration', lambda X: call_pi(X, 0, 6, 1e-10)[:2], _A, {'n': 3})
     _B = qx.to_np(qx.rand_int(rng, 3, 3, -3, 3))
